@@ -150,6 +150,67 @@ func (fc *FnCtx) specApp(name string, rs smt.Sort, args ...*smt.Term) *smt.Term 
 // special handles callees whose meaning is built into the engine.
 func (fc *FnCtx) special(name string, c *ssa.CallCommon, args []Val, resT types.Type, st *State, g *smt.Term, where string, res *Val) bool {
 	switch name {
+	case "sort.Strings":
+		// sort.Strings reorders its argument in place. []string registers are
+		// immutable values in this model, so the call is modelled by REBINDING the
+		// argument's register to a permutation of its old value (trusted: "Strings
+		// sorts a slice of strings in increasing order" - only "a permutation" is
+		// used). That is sound only if no other register can see the same backing
+		// array afterwards: every other []string register of the function is
+		// poisoned (any later use is refused), and a call inside a loop is refused.
+		if len(args) != 1 || len(c.Args) != 1 || args[0].T == nil || kindOf(c.Args[0].Type()) != KStrList {
+			return false
+		}
+		for _, li := range fc.loops {
+			if li != nil && fc.curBlock != nil && li.blocks[fc.curBlock] {
+				fc.refuse("sort.Strings inside a loop: in-place mutation of a []string is modelled only outside loops")
+			}
+		}
+		old := args[0].T
+		nw := fc.S.Fresh("sorted", smt.SList)
+		fwd := fc.S.FreshFun("perm", []smt.Sort{smt.Int}, smt.Int)
+		inv := fc.S.FreshFun("perminv", []smt.Sort{smt.Int}, smt.Int)
+		i := smt.Const("i!p", smt.Int)
+		inb := func(t *smt.Term) *smt.Term { return smt.And(smt.Le(smt.IntLit(0), t), smt.Lt(t, smt.LLen(old))) }
+		fi, ii := smt.App(fwd, smt.Int, i), smt.App(inv, smt.Int, i)
+		fc.S.Assert(smt.Eq(smt.LLen(nw), smt.LLen(old)), "sort.Strings: same length")
+		fc.S.Assert(smt.Forall([]*smt.Term{i}, smt.Implies(inb(i), smt.And(inb(fi), smt.Eq(smt.LAt(nw, i), smt.LAt(old, fi)), smt.Eq(smt.App(inv, smt.Int, fi), i))), []*smt.Term{smt.LAt(nw, i)}, []*smt.Term{fi}), "sort.Strings: every element of the result is an element of the argument")
+		fc.S.Assert(smt.Forall([]*smt.Term{i}, smt.Implies(inb(i), smt.And(inb(ii), smt.Eq(smt.LAt(old, i), smt.LAt(nw, ii)), smt.Eq(smt.App(fwd, smt.Int, ii), i))), []*smt.Term{smt.LAt(old, i)}, []*smt.Term{ii}), "sort.Strings: every element of the argument is an element of the result")
+		fc.Used["trusted: sort.Strings permutes its argument in place (\"Strings sorts a slice of strings in increasing order\"); modelled by rebinding the argument's register, all other []string registers of the function are unusable afterwards"] = true
+		arg := c.Args[0]
+		fc.vals[arg] = Val{T: fc.S.Name("aftersort", smt.Ite(g, nw, old)), GoT: args[0].GoT}
+		if fc.poisoned != nil {
+			fc.refuse("a second sort.Strings in one function is outside the supported subset")
+		}
+		fc.poisoned = map[ssa.Value]bool{}
+		fc.poisonAt = fc.curBlock
+		fc.poisonSuc = map[*ssa.BasicBlock]bool{}
+		var walk func(b *ssa.BasicBlock)
+		walk = func(b *ssa.BasicBlock) {
+			for _, s := range b.Succs {
+				if !fc.poisonSuc[s] {
+					fc.poisonSuc[s] = true
+					walk(s)
+				}
+			}
+		}
+		if fc.curBlock != nil {
+			walk(fc.curBlock)
+		}
+		for _, b := range fc.Fn.Blocks {
+			for _, in := range b.Instrs {
+				if v, ok := in.(ssa.Value); ok && v != arg && kindOf(v.Type()) == KStrList {
+					fc.poisoned[v] = true
+				}
+			}
+		}
+		for _, pv := range fc.Fn.Params {
+			if pv != arg && kindOf(pv.Type()) == KStrList {
+				fc.poisoned[pv] = true
+			}
+		}
+		*res = Val{GoT: resT}
+		return true
 	case "fmt.Sprintf":
 		if len(args) != 2 {
 			return false
